@@ -255,7 +255,8 @@ static HdrInfo parse_2027(const std::vector<unsigned char>& b) {
 	return h;
 }
 // mask: bit t set -> type t of the file's type table is re-labelled as unknown
-// viaCopy: the loaded model is copied (copy constructor) and the COPY is saved
+// viaCopy: 1 = the loaded model is copied (copy constructor) and the COPY is saved;
+//          2 = it is assigned to a NifFile object that already held another model, and that object is saved
 extern "C" void h_c03(int ver, int feat, int mask, int rawSave, int viaCopy) {
 	NifFile nif;
 	fm_build(nif, ver, feat);
@@ -295,9 +296,14 @@ extern "C" void h_c03(int ver, int feat, int mask, int rawSave, int viaCopy) {
 	sym_assert(m.HasUnknown(), "C03-flag: unknown blocks not flagged");
 	sym_reach("loaded");
 	NifFile mcopy(m);
+	NifFile reused;
+	if (viaCopy == 2) {
+		fm_build(reused, ver, 0);
+		reused = m;
+	}
 	if (viaCopy)
-		sym_assert(mcopy.HasUnknown(), "C03-flag-copy: copy of a model with unknown blocks does not know about them");
-	FmRange fo = fm_save(viaCopy ? mcopy : m, rawSave != 0);
+		sym_assert((viaCopy == 2 ? reused : mcopy).HasUnknown(), "C03-flag-copy: copy of a model with unknown blocks does not know about them");
+	FmRange fo = fm_save(viaCopy == 2 ? reused : viaCopy ? mcopy : m, rawSave != 0);
 	std::vector<unsigned char> ob(fo.b - fo.a);
 	sym_out_read(ob.data(), fo.a, ob.size());
 	HdrInfo g = parse_2027(ob);
